@@ -1,5 +1,5 @@
 From Coq Require Import ZArith List Bool Arith Lia.
-From PV Require Import Median Calendar M_Times P_C03.
+From PV Require Import Median Calendar M_Times M_ScanNo P_C03.
 Import ListNotations.
 Open Scope Z_scope.
 
@@ -81,4 +81,39 @@ Lemma repairs_refuted :
   100 * 19 < 40 * 49 /\
   nth 0%nat (get_times ex_tp ex_th r_nums r_years r_jdays r_msecs (Some 992563170000)) 0 - nth 0%nat r_truth 0 = 30000 /\
   nth 45%nat (get_times ex_tp ex_th r_nums r_years r_jdays r_msecs (Some 992563170000)) 0 - nth 45%nat r_truth 0 = 30000.
+Proof. vm_compute. repeat split. Qed.
+
+
+(* ---------- the repair clause fails through the line-number sanitising (finding F-C08-3) ---------- *)
+(* 200 GAC POD records numbered 30, 33..93, 95..232 (all numbers intact, two data gaps) from 2000-08-23 15:02:16.620;
+   record 1 carries a garbage millisecond field, record 196 a zeroed time code; everything else (first record and header
+   included) is exact.  The sanitising takes its statistical branch (61 records are off the median offset) with a
+   threshold of mean + 3 sigma = 1.8 lines and removes the FIRST record (deviation 3); the time repair then anchors on
+   record 1, stage 2 finds no line near the header and refuses, and all 199 returned times are 45 781 335 ms
+   (12 h 43 min) off.  Composition of the two models exactly as in Reader.read / get_times. *)
+Definition f3_nums : list Z := 30 :: map Z.of_nat (seq 33 61) ++ map Z.of_nat (seq 95 138).
+Definition f3_t0 := 967042936620.                       (* 2000-08-23 15:02:16.620 *)
+Definition f3_head := f3_t0 - 29 * 500.                 (* header = nominal time of line 1 *)
+Definition f3_truth (n : Z) := f3_t0 + (n - 30) * 500.
+Definition f3_fields (i : nat) (n : Z) : Z * Z * Z :=
+  if Nat.eqb i 1 then (2000, 236, 99919455) else if Nat.eqb i 196 then (2000, 0, 0)
+  else (2000, 236, 54136620 + (n - 30) * 500).
+Definition f3_recs : list (Z * (Z * Z * Z)) := map (fun p => (fst p, f3_fields (snd p) (fst p))) (tag f3_nums).
+Definition f3_out := match pod_sanitize 15000 f3_recs with Some o => o | None => [] end.
+Definition f3_times := get_times ex_tp ex_th (map fst f3_out) (map (fun r => fst (fst (snd r))) f3_out)
+   (map (fun r => snd (fst (snd r))) f3_out) (map (fun r => snd (snd r)) f3_out) (Some f3_head).
+
+Definition trip_eqb (a b : Z * Z * Z) : bool :=
+  (fst (fst a) =? fst (fst b)) && (snd (fst a) =? snd (fst b)) && (snd a =? snd b).
+
+Lemma first_record_refuted :
+  length f3_nums = 200%nat /\ monotone f3_nums = true /\
+  (* exactly two records (1 %) do not carry their true time; the first record does *)
+  length (filter (fun r => negb (trip_eqb (snd r) (2000, 236, 54136620 + (fst r - 30) * 500))) f3_recs) = 2%nat /\
+  option_map snd (hd_error f3_recs) = Some (2000, 236, 54136620) /\
+  (* the sanitising removes the first record and nothing else *)
+  map fst f3_out = tl f3_nums /\
+  (* every returned time is 45 781 335 ms off *)
+  length f3_times = 199%nat /\
+  forallb (fun p => snd p - f3_truth (fst p) =? 45781335) (combine (tl f3_nums) f3_times) = true.
 Proof. vm_compute. repeat split. Qed.
